@@ -119,6 +119,13 @@ CHECKS = {
             "context with embedding nets, batch sizes dividing / not dividing / exceeding num_samples; ValueError on context row "
             "mismatch, TypeError on non-positive or non-integer counts; batches are independent draws and block i stays block i.",
             "bool counts not generated; DiagonalNormal has no sampler by design.", "DESIGN.md 3/C18"),
+    "C19": ("Hypothesis-generated float32 models vs their deepcopy().double() twin; tolerance from an empirical conditioning probe "
+            "(float64 result under relative 2^-23 perturbations of inputs and parameters)",
+            "Exploration: zoo transforms incl. composites/Inverse/Multiscale in both directions with |parameter| <= 2, |input| <= 5: "
+            "float32 does not raise, results finite, dtypes follow the inputs (float32 and float64), |out32-out64| <= 4096*(kappa_hat "
+            "+ u32(1+|out64|)).",
+            "'moderate magnitude' read as stated in the rule; the cubic inverse's float32 inaccuracy is an open known finding.",
+            "DESIGN.md 3/C19"),
     "C20": ("exhaustive small-shape enumeration + Hypothesis generation against numpy reference models; bit-level "
             "argument-unchanged comparison",
             "Exploration: every utils helper on an exhaustive grid of small shapes/integer arguments and on generated "
